@@ -34,6 +34,8 @@ func main() {
 		os.Exit(runConcStress(os.Args[2:]))
 	case "conc-explore":
 		os.Exit(runConcExplore(os.Args[2:]))
+	case "extract-replay":
+		os.Exit(runExtractReplay(os.Args[2:]))
 	case "hashfuzz":
 		os.Exit(runHashFuzz(os.Args[2:]))
 	case "reader-replay":
